@@ -188,10 +188,12 @@ CHECKS = {
             "cycle depends on the server only through the answers to its requests (C19_server_extensionality, every variant of "
             "the model); the files copied as timestamp, snapshot and targets are those whose contents the client trusts; cached "
             "delegated-role names are plain directory entries and pairwise distinct; every root version 1..N is written when "
-            "the chain is requested; cached targets go through save_target (C06/C08: verified-only, confined). Partial: that "
-            "the real cache writes those files (its own size limits and the presence of every <v>.root.json on the source are "
-            "not modelled: a cache that fails is outside the theorem) and that targets read back identical is established by "
-            "the runs (odd role and target names, subsets, root chains, corrupted sources, both settings, directory listings). "
+            "the chain is requested; a target the cache stored is at its destination exactly the signed content, byte for byte "
+            "what the source served, every other file untouched, and reads back intact through the verifying adapters in any "
+            "chunking (C19_cached_target_reads_back, composing C08 and C06). Partial: that the real cache writes those files "
+            "(its own size limits and the presence of every <v>.root.json on the source are not modelled: a cache that fails "
+            "is outside the theorems) is established by the runs (odd role and target names incl. names that need "
+            "resolution, subsets, root chains, corrupted sources, both settings, directory listings). "
             "Known finding: url_encoded_target_name.",
             NOTE + MODELLED, "5/C19"),
     "C12": ("Coq proofs about a schema-level model of serde parse-and-reserialise (project) and the canonical formatter, "
